@@ -478,6 +478,7 @@ func (w *Worker) apply(st *Stim) {
 		}
 	case "wake":
 		w.H.Wake()
+		w.Log.Add(Event{Ev: "wake"})
 	case "tick":
 		core.VerifRequestTick()
 		w.H.Wake()
